@@ -384,6 +384,145 @@ def check_new_memos(rep, prog):
             c20.rule_key_full(rep, prog, LP, q, cname)
 
 
+def projection_inbreeding_by_value(prog, m, fn):
+    """(True / False / None when not evaluable, detail)"""
+    import itertools as _it
+    import collections as _co
+    n_runs = 0
+    for L in (1, 2, 3, 4):
+        for part in _it.combinations_with_replacement((0, 1, 2), L):
+            for k in range(2, 2 * L + 1, 2):
+                def hook(nm, args, kwargs):
+                    last = nm.split('.')[-1]
+                    if last == 'Counter' and len(args) <= 1 and all(mx.is_concrete(a) for a in args):
+                        return dict(_co.Counter(*[list(a) for a in args]))
+                    if last == 'bincount' and args and isinstance(args[0], (list, tuple)) and mx.is_concrete(args[0]):
+                        ml = kwargs.get('minlength', args[2] if len(args) > 2 else 0)
+                        c = _co.Counter(args[0])
+                        return [c.get(j, 0) for j in range(max(max(args[0]) + 1 if args[0] else 0, ml if isinstance(ml, int) else 0))]
+                    if last == 'comb' and len(args) == 2 and all(isinstance(a, int) for a in args):
+                        import math
+                        return math.comb(*args)
+                    if last in ('combinations', 'combinations_with_replacement', 'permutations', 'product') and all(mx.is_concrete(a) for a in args) and all(isinstance(v_, int) for v_ in kwargs.values()):
+                        try:
+                            return [tuple(x) for x in getattr(_it, last)(*args, **kwargs)]
+                        except (TypeError, ValueError):
+                            raise mx.Raised('ValueError')
+                    return NotImplemented
+                it = mx.Interp(prog, m, call_hook=hook, symbolic_loops=False)
+                try:
+                    paths = it.run(fn, {'partition': list(part), 'k': k})
+                except mx.Undecidable as e:
+                    return None, 'not evaluable: %s' % e
+                if len(paths) != 1 or paths[0][0][0] != 'return':
+                    return None, 'not evaluable: %d paths' % len(paths)
+                n_runs += 1
+                outcome, events, _d = paths[0]
+                want = _co.Counter(sum(c) for c in _it.combinations(part, k // 2))
+                # the accumulator: the array whose cells are incremented / set
+                cells = {}
+                for e in events:
+                    if e[0] in ('augitem', 'setitem'):
+                        key = e[2]
+                        val = e[4] if e[0] == 'augitem' else e[3]
+                        op = e[3] if e[0] == 'augitem' else 'Set'
+                        keys = key if isinstance(key, (list, tuple)) else [key]
+                        vals = val if isinstance(val, (list, tuple)) else [val] * len(keys)
+                        if not all(isinstance(x, int) and not isinstance(x, bool) for x in keys) or not all(isinstance(x, (int, float)) for x in vals) or op not in ('Add', 'Set'):
+                            return None, 'not evaluable: store %s at %s' % (mx.show(val)[:30], mx.show(key)[:30])
+                        if isinstance(key, (list, tuple)):
+                            # numpy applies an in-place operation on a fancy-indexed target once per DISTINCT index
+                            seen = {}
+                            for kk, vv in zip(keys, vals):
+                                seen[kk] = vv
+                            for kk, vv in seen.items():
+                                cells[kk] = (cells.get(kk, 0) + vv) if op == 'Add' else vv
+                        else:
+                            cells[key] = (cells.get(key, 0) + vals[0]) if op == 'Add' else vals[0]
+                got = {j: c for j, c in cells.items() if c}
+                if got != dict(want):
+                    return False, 'partition %s, k = %d: allele sums counted %s, the choices of %d individuals give %s' % (list(part), k, dict(sorted(got.items())), k // 2, dict(sorted(want.items())))
+    return True, 'every choice of k/2 individuals is counted once at its allele sum (%d partitions x k executed abstractly)' % n_runs
+
+
+def enough_covered_by_value(prog, m, fn):
+    """(True / False / None when not evaluable, detail)"""
+    import math
+    c0, one = Rat.atom('c0'), Rat.const(1)
+
+    def leaf(v):
+        t = mx.show(v).replace(' ', '')
+        if t == 'coverage_distribution[1][0]':
+            return c0
+        if t in ('numpy.sum(coverage_distribution[1][1:])', 'coverage_distribution[1][1:].sum()', 'sum(coverage_distribution[1][1:])', 'np.sum(coverage_distribution[1][1:])'):
+            return one - c0           # the distribution sums to one
+        sm = mx.call_of(v, 'sum') if isinstance(v, mx.Sym) else None
+        if sm is not None and sm[0] and isinstance(sm[0][0], (list, tuple)):
+            tot = Rat.const(0) if len(sm[0]) == 1 else mx.to_rat(sm[0][1], leaf)
+            for x in sm[0][0]:
+                tot = tot + mx.to_rat(x, leaf)
+            return tot
+        if isinstance(v, mx.Sym) and v.struct and v.struct[0] == 'binop' and v.struct[1] == '**' and isinstance(v.struct[3], int) and v.struct[3] >= 0:
+            b = mx.to_rat(v.struct[2], leaf)
+            out = one
+            for _ in range(v.struct[3]):
+                out = out * b
+            return out
+        sf = v.struct if isinstance(v, mx.Sym) and v.struct and v.struct[0] == 'tail' else None
+        if sf is not None:
+            _t, k_, n_, p_ = sf
+            pr = mx.to_rat(p_, leaf)
+            tot = Rat.const(0)
+            for j in range(max(k_ + 1, 0), n_ + 1):
+                term = Rat.const(math.comb(n_, j))
+                for _ in range(j):
+                    term = term * pr
+                for _ in range(n_ - j):
+                    term = term * (one - pr)
+                tot = tot + term
+            return tot
+        return None
+    n_runs = 0
+    for nseq in (2, 4, 6, 8):
+        for nsub in range(1, nseq + 1):
+            def hook(nm, args, kwargs):
+                last = nm.split('.')[-1]
+                if last == 'comb' and len(args) == 2 and all(isinstance(a, int) for a in args):
+                    return math.comb(*args) if args[1] >= 0 and args[0] >= 0 else 0
+                if last == 'ceil' and len(args) == 1 and isinstance(args[0], (int, float)):
+                    return math.ceil(args[0])
+                if last == 'floor' and len(args) == 1 and isinstance(args[0], (int, float)):
+                    return math.floor(args[0])
+                if nm.endswith('binom.sf') and len(args) == 3 and isinstance(args[0], int) and isinstance(args[1], int) and not kwargs:
+                    return mx.Sym('sf(%d, %d, %s)' % (args[0], args[1], mx.show(args[2])), struct=('tail', args[0], args[1], args[2]))
+                return NotImplemented
+            it = mx.Interp(prog, m, call_hook=hook, symbolic_loops=False)
+            try:
+                paths = it.run(fn, {'coverage_distribution': mx.Sym('coverage_distribution'), 'n_sequenced': nseq, 'n_subsampling': nsub})
+            except mx.Undecidable as e:
+                return None, 'not evaluable: %s' % e
+            if len(paths) != 1 or paths[0][0][0] != 'return':
+                return None, 'not evaluable: %d paths' % len(paths)
+            n_runs += 1
+            try:
+                got = mx.to_rat(paths[0][0][1], leaf)
+            except AlgebraError as e:
+                return None, 'not evaluable: %s' % e
+            N1 = nseq // 2 - 1
+            lo = int(math.ceil(nsub / 2)) - 1
+            ref = Rat.const(0)
+            for j in range(max(lo, 0), N1 + 1):
+                term = Rat.const(math.comb(N1, j))
+                for _ in range(N1 - j):
+                    term = term * c0
+                for _ in range(j):
+                    term = term * (one - c0)
+                ref = ref + term
+            if not got.equals(ref):
+                return False, 'n_sequenced = %d, n_subsampling = %d: returns %s, the tail from %d of %d other individuals is %s' % (nseq, nsub, got.canon()[:80], lo, N1, ref.canon()[:80])
+    return True, 'the binomial tail from ceil(nsub/2) - 1 over the other N - 1 individuals (%d combinations of sizes executed abstractly, coverage probabilities symbolic)' % n_runs
+
+
 def check_projection(rep, prog):
     m = prog.mod(LP)
     fn = prog.func(LP, 'projection_inbreeding')
@@ -430,6 +569,12 @@ def check_projection(rep, prog):
                     isinstance(s_, ast.Assign) and len(s_.targets) == 1 and isinstance(s_.targets[0], ast.Name) and s_.targets[0].id == ix.id and isinstance(s_.value, ast.Call) for s_ in own_nodes(fn)))
                 if arrayish:
                     det = '`%s` increments once per distinct index: combinations with equal allele sums lose their multiplicity (numpy.add.at or bincount would keep it)' % ast.unparse(n)
+    if not ok:
+        # by value: the function executed abstractly on every partition of 1..4 individuals with 0 / 1 / 2 copies and every even k up to
+        # the number of haplotypes; the counts it accumulates are compared with the number of choices of k/2 individuals per allele sum
+        v_ok, v_det = projection_inbreeding_by_value(prog, m, fn)
+        if v_ok is not None:
+            ok, det = v_ok, v_det
     rep.ob('R-MULT', 'projection_inbreeding combinations', ok, det, m.rel, fn.lineno,
            what='each choice of k//2 individuals is counted once, with multiplicity (no set / unique), at the index of its allele sum')
     acc_names2 = {ast.unparse(x.left) for x in [r_.value for r_ in r] if isinstance(x, ast.BinOp) and isinstance(x.op, ast.Div)} or {'result'}
@@ -683,6 +828,12 @@ def check_nocall(rep, prog):
     except StopIteration:
         det = None
     if det is not None:
+        if not ok:
+            # by value: the function executed abstractly for every n_sequenced in 2..8 and n_subsampling in 1..n_sequenced, the coverage
+            # probabilities symbolic; the polynomial it returns is compared with the binomial tail
+            v_ok, v_det = enough_covered_by_value(prog, m, fn)
+            if v_ok is not None:
+                ok, det = v_ok, v_det
         rep.ob('R-ALG', 'probability_enough_individuals_covered tail', ok, det, m.rel, fn.lineno,
                what='sum_{j=ceil(nsub/2)-1}^{N-1} C(N-1,j) c0^(N-1-j) (1-c0)^j over the other N-1 individuals (exponents add to N-1, upper limit N-1 inclusive)')
 
@@ -800,6 +951,36 @@ def check_precalc(rep, prog):
     norm_site(rep, m, sim, 'simulated outcome distribution is normalised (uncalled sites kept in entry 0)', r[0].value if len(r) == 1 else None, 'simulate_GATK_multisample_calling')
     ts = ast.unparse(sim)
     oku = has(ts, 'output_freqs.flat[0] += numpy.sum(t_alt < 2)') and has(ts, 'output_freqs.flat[0] += numpy.sum(all_enough_calls == False)') and has(ts, '(n_ref, n_alt) = (n_ref[t_alt >= 2], n_alt[t_alt >= 2])')
+    if not oku:
+        # by meaning: every counter added to entry 0 counts the complement of a mask that the arrays are filtered with
+        def kept_mask(e):
+            """text of the mask of the sites that are KEPT when e is the mask of the discarded ones"""
+            if isinstance(e, ast.UnaryOp) and isinstance(e.op, (ast.Invert, ast.Not)):
+                return ast.unparse(e.operand)
+            if isinstance(e, ast.Call) and (dotted(e.func) or '').split('.')[-1] in ('logical_not', 'invert') and len(e.args) == 1:
+                return ast.unparse(e.args[0])
+            if isinstance(e, ast.Compare) and len(e.ops) == 1:
+                if isinstance(e.comparators[0], ast.Constant) and e.comparators[0].value is False and isinstance(e.ops[0], (ast.Eq, ast.Is)):
+                    return ast.unparse(e.left)
+                flip = {ast.Lt: ast.GtE, ast.LtE: ast.Gt, ast.Gt: ast.LtE, ast.GtE: ast.Lt, ast.Eq: ast.NotEq, ast.NotEq: ast.Eq}.get(type(e.ops[0]))
+                if flip is not None:
+                    return ast.unparse(ast.Compare(left=e.left, ops=[flip()], comparators=e.comparators))
+            return None
+        counters = []
+        for n_ in own_nodes(sim):
+            if isinstance(n_, ast.AugAssign) and isinstance(n_.op, ast.Add) and ast.unparse(n_.target).replace(' ', '') in ('output_freqs.flat[0]',) and isinstance(n_.value, ast.Call):
+                f_ = (dotted(n_.value.func) or '').split('.')[-1]
+                arg = n_.value.args[0] if f_ in ('sum', 'count_nonzero') and len(n_.value.args) == 1 and not n_.value.keywords else \
+                    (n_.value.func.value if f_ == 'sum' and isinstance(n_.value.func, ast.Attribute) and not n_.value.args else None)
+                counters.append(kept_mask(arg) if arg is not None else None)
+        idx_texts = {ast.unparse(x.slice) for x in own_nodes(sim) if isinstance(x, ast.Subscript)}
+        if len(counters) == 2 and all(c is not None for c in counters):
+            used = all(c in idx_texts for c in counters)
+            alt2 = any(c.replace(' ', '') in ('t_alt>=2', 't_alt>1') for c in counters)
+            if used and alt2:
+                oku = True
+            elif not alt2:
+                pass        # the threshold on the alternative reads is not the one the rule knows: reported below as it was
     rep.ob('R-COMPL', 'simulate_GATK uncalled sites', oku, 'sites with fewer than two alternative reads / too few called individuals are added to entry 0; the complement continues', m.rel, sim.lineno,
            what='every simulated site is counted exactly once, uncalled ones in the masked corner')
     sub = prog.func(LP, 'subsample_genotypes_1D')
